@@ -97,11 +97,11 @@ KEEP_DUR_OR_PITCH = [
 ]
 
 
-def six_encodings(doc, evs, inc, exc, ids=None, types=None, form=0, relations=True):
+def six_encodings(doc, evs, inc, exc, ids=None, types=None, form=0, relations=True, frm=None, to=None):
     idx = {}
     for enc in ENCS:
-        evs.append(session.record_call(doc, {'op': 'dumps', 'args': session.dumps_args(types=types, ids=ids, inc=inc, exc=exc, enc=enc),
-                                             'exact': inc is None and not exc, '_form': form}))
+        evs.append(session.record_call(doc, {'op': 'dumps', 'args': session.dumps_args(types=types, ids=ids, inc=inc, exc=exc, enc=enc, frm=frm, to=to),
+                                             'exact': inc is None and not exc, '_form': form, 'strict': False}))
         idx[enc] = len(evs)
     if relations:
         evs.append(session.relation(doc, 'plain_vs_ext', idx['kern'], idx['ekern'], 'kern', 'ekern'))
@@ -132,6 +132,13 @@ def sess_c04(seed, profile='main'):
     if doc is not None:
         for inc, exc in [KEEP_DUR_OR_PITCH[0]] + r.sample(KEEP_DUR_OR_PITCH[1:], 2):
             six_encodings(doc, evs, inc, exc, form=r.randrange(6))
+        # "every document and option set": also a measure range (the six views of an excerpt, with its rebuilt header lines)
+        M = len(doc.measure_start_tree_stages)
+        if M >= 1:
+            a = r.randint(1, M)
+            b = r.randint(a, M)
+            inc, exc = r.choice(KEEP_DUR_OR_PITCH)
+            six_encodings(doc, evs, inc, exc, form=r.randrange(6), frm=a, to=b if r.random() < 0.8 else None)
     return finish_session(lines, evs, text, seed, features(lines), agn_classes(lines))
 
 
@@ -348,6 +355,8 @@ def sess_c07(seed, profile='kern_only', mixed=False, sigs=False, hidden=False):
         for a, b in ((-1, None), (-2, M), (None, M + 1), (1, M + 1), (2, 1), (M, M - 1), (M + 1, M + 2), (0, M + 3)):
             if (a is None or b is None or True):
                 evs.append(session.record_call(doc, {'op': 'dumps', 'args': session.dumps_args(types=ts, frm=a, to=b), 'strict': True}))
+        # overlapping iterations also yield 1..M each (appended LAST: the listed cases of the fixed corpora are keyed by event position)
+        evs.append(session.record_call(doc, {'op': 'iterpairs', 'args': {}}))
     tags = features(lines)
     if mixed:
         tags.add('mixed-export-kern-only')
